@@ -7,14 +7,18 @@ def case_key(src: bytes, text: bytes) -> str:
     return hashlib.sha1(src + b"\0" + text).hexdigest()[:12]
 
 
-def gen_and_run(ctx, genprop, corpus=None):
-    out = ctx.workdir
-    cmd = [os.path.join(C.BIN, "vharness"), "gen-run", "-prop", genprop, "-seed", str(ctx.seed),
-           "-tier", ctx.tier, "-out", out]
+def gen_and_run(ctx, genprop, corpus=None, seed=None, tier=None, subdir=None, max_cases=None):
+    out = ctx.workdir if subdir is None else os.path.join(ctx.workdir, subdir)
+    os.makedirs(out, exist_ok=True)
+    cmd = [os.path.join(C.BIN, "vharness"), "gen-run", "-prop", genprop, "-seed", str(ctx.seed if seed is None else seed),
+           "-tier", tier or ctx.tier, "-out", out]
     corpus = corpus or os.path.join(C.VERIF, "corpus", genprop + ".tsv")
-    if os.path.exists(corpus):
+    if os.path.exists(corpus) and subdir is None:
         cmd += ["-corpus", corpus]
-    rc, o = C.sh(cmd, timeout=7200)
+    env = dict(os.environ)
+    if max_cases:
+        env["VERIF_MAX_CASES"] = str(max_cases)
+    rc, o = C.sh(cmd, timeout=7200, env=env)
     ctx.log.append({"step": " ".join(cmd[1:]), "rc": rc, "out": o[-1500:]})
     if rc != 0:
         raise RuntimeError("vharness gen-run failed: " + o[-500:])
@@ -295,6 +299,17 @@ def standard_run(ctx, genprop, fields=ALL_FIELDS, what="matches differ from the 
         ctx.coverage["structural_agreement"] = (counters["code_drift"] == 0 and counters["trace_drift"] == 0)
     report(ctx, mism)
     if report_drift_for(genprop):
+        ndrift = counters.get("code_drift", 0) + counters.get("code2_drift", 0) + counters.get("trace_drift", 0)
+        if ndrift and not mism and ctx.tier != "thorough":
+            # the tie is broken and this run saw no observable difference: search harder before reporting it without an
+            # input — a second, larger generation (thorough volumes, capped) under another seed
+            c2, i2, m2, _ = gen_and_run(ctx, genprop, seed=ctx.seed + 7919, tier="thorough", subdir="escalation", max_cases=50000)
+            mism2, counters2, _ = compare_run(ctx, c2, i2, m2, fields, what)
+            for p in preds:
+                mism2 = pred_failures(c2, i2, m2, p)[0] + mism2
+            counters["escalation_cases"] = counters2["evaluations"]
+            counters["escalation_mismatches"] = len(mism2)
+            report(ctx, mism2)
         report_drift(ctx, counters, drifts)
     return cases, impl, model, counters
 
